@@ -119,7 +119,13 @@ def lexical_rule(chk, repo):
     # module-level string constants, for patterns assembled with f-strings (`rf"({_IDENT})\s+({_IDENT})..."`)
     consts = {}
     # ... or in a private module of the package that the fast parser imports its text-level helpers from
-    scan_files = [FILE] + sorted({imp_[1] for imp_ in repo.imported_names(FILE).values() if imp_[1] in repo.extra_files})
+    # (transitively: a sub-package whose `__init__` re-exports what its modules define)
+    scan_files, todo_ = [FILE], [FILE]
+    while todo_:
+        for imp_ in sorted(repo.imported_names(todo_.pop()).values()):
+            if imp_[1] in repo.extra_files and imp_[1] not in scan_files:
+                scan_files.append(imp_[1])
+                todo_.append(imp_[1])
     scan_nodes = [x for f_ in scan_files for x in ast.walk(repo.tree[f_])]
     for st in [st_ for f_ in scan_files for st_ in repo.tree[f_].body]:
         if isinstance(st, (ast.Assign, ast.AnnAssign)) and getattr(st, "value", None) is not None:
